@@ -91,6 +91,8 @@ def _c12_rows(fx, np, pid, t, strings, rng=None, full=True):
     if t[1] <= 52:
         for route in ('dtype-default', 'get_dtype(fxp)|fxp', 'get_dtype(fxp)|Q'):
             out.append(x_text.observe_dtype_render(fx, np, [pid], t, True, route))
+        for route in ('dtype-default#zero-imag', 'get_dtype(fxp)|fxp#zero-imag', 'get_dtype()|fxp|after(Q)#zero-imag', 'dtype-default#conjprod'):
+            out.append(x_text.observe_dtype_render(fx, np, [pid], t, True, route))
     for spelling, st, cplx in strings:
         if not st:
             continue
